@@ -10,6 +10,15 @@ import (
 // errScript is the error a scripted reader or writer injects.
 var errScript = errors.New("harness: injected fault")
 
+// readerFaultErrs are the errors a scripted reader injects: "E" the harness's
+// own error value, "U" and "P" two errors of package io that a real source
+// (a truncated gzip stream, a closed pipe) returns as its own.
+var readerFaultErrs = map[string]error{"E": errScript, "U": io.ErrUnexpectedEOF, "P": io.ErrClosedPipe}
+
+func isReaderFault(err error) bool {
+	return err == errScript || err == io.ErrUnexpectedEOF || err == io.ErrClosedPipe
+}
+
 // errSpin is returned by scripted readers/writers when the code under test
 // keeps calling them without any possible progress.
 var errSpin = errors.New("harness: spin detected")
@@ -17,7 +26,8 @@ var errSpin = errors.New("harness: spin detected")
 // REvent is one call of the scripted reader: hand out up to N bytes (never more
 // than len(p) or than what is left) and then return Err: "" (nil), "EOF"
 // (io.EOF, only honoured if the data is exhausted by this call, as a real
-// stream reader would do) or "E" (errScript; the reader recovers afterwards).
+// stream reader would do) or a fault "E", "U", "P" (see readerFaultErrs; the
+// reader recovers afterwards).
 type REvent struct {
 	N   int    `json:"n"`
 	Err string `json:"err,omitempty"`
@@ -43,6 +53,7 @@ type scriptReader struct {
 	faultData int // number of faults that arrived together with data
 	faults    int
 	eofs      int
+	produced  []error // the fault errors returned so far
 }
 
 func newScriptReader(s ReaderScript) *scriptReader {
@@ -82,8 +93,9 @@ func (r *scriptReader) Read(p []byte) (n int, err error) {
 	n = copy(p, r.data[r.pos:r.pos+want])
 	r.pos += n
 	switch {
-	case scripted && ev.Err == "E":
-		err = errScript
+	case scripted && readerFaultErrs[ev.Err] != nil:
+		err = readerFaultErrs[ev.Err]
+		r.produced = append(r.produced, err)
 		r.faults++
 		if n > 0 {
 			r.faultData++
@@ -149,7 +161,7 @@ func genReaderScript(t *rapid.T, label string, data []byte, faults bool) ReaderS
 		case 1:
 			e.Err = "EOF"
 		case 2:
-			e.Err = "E"
+			e.Err = rapid.SampledFrom([]string{"E", "E", "U", "P"}).Draw(t, label+".errKind")
 		}
 		if e.N == 0 && e.Err == "" {
 			zeros++
